@@ -130,9 +130,16 @@ func genG1(r rng, n int, t *testing.T) []*Scenario {
 					script = append(script, Action{After: r.between(0, h), Do: r.pick2("stop", "stop_ctx")})
 				}
 				if r.chance(0.6) {
-					d = r.between(1, 2*h)
+					d = r.pick(r.between(1, 2*h), r.between(1, 2*h), ttl+r.between(0, 2*h), 2*ttl)
 					at += d
 					script = append(script, Action{After: d, Do: "start"})
+					if r.chance(0.3) {
+						// a quick shutdown right after the restart (before watch / periodic check catch up)
+						d = r.pick(1*ms, h/4, h/2, 400*ms)
+						at += d
+						script = append(script, Action{After: d, Do: "stop_ctx", Delete: true, Wait: r.chance(0.5)})
+						break
+					}
 				} else {
 					break
 				}
@@ -218,6 +225,16 @@ var tamperCorpus = []string{
 	`{"id":["n1"],"token":{"a":1}}`, ` {"id":"n1","token":"t"} `, `{"id":"n1","token":"t"}garbage`, `{"id":"n1","token":"t"}`,
 }
 
+// values derived from the live record at the moment of the write: {val} the stored bytes,
+// {id} / {tok} / {prio} its decoded fields
+var tamperTemplates = []string{
+	`{val}garbage`, `{val}}`, `{val} {val}`, "{val}\x00", ` {val}`, `[{val}]`,
+	`{"id":"{id}","token":"{tok}"}`, `{"token":"{tok}","id":"{id}","priority":{prio}}`, `{"ID":"{id}","Token":"{tok}"}`,
+	`{"id":"someone-else","token":"{tok}"}`, `{"id":"{id}","token":"{tok}x"}`, `{"id":"{ID}","token":"{tok}"}`,
+	`{"id":"{id}","token":"{TOK}"}`, `{"id":"{id}","token":"{tok}","priority":"high"}`, `{"id":"{id}","id":"zz","token":"{tok}"}`,
+	`{"id":"zz","id":"{id}","token":"{tok}"}`, `{"id":"{id}","token":["{tok}"]}`, `{"id":"{id} ","token":"{tok}"}`,
+}
+
 // G3: outside interference: arbitrary bytes written/deleted at any moment, for followers,
 // leaders and takeover-enabled candidates.
 func genG3(r rng, n int, t *testing.T) []*Scenario {
@@ -248,12 +265,16 @@ func genG3(r rng, n int, t *testing.T) []*Scenario {
 				sc.Actions = append(sc.Actions, Action{At: at, Do: "ext_del", Key: "g"})
 			case 1:
 				sc.Actions = append(sc.Actions, Action{At: at, Do: "ext_put", Key: "g", Str: strings.Repeat("a", 100000)})
+			case 2, 3:
+				sc.Actions = append(sc.Actions, Action{At: at, Do: "ext_tpl", Key: "g", Str: tamperTemplates[r.Intn(len(tamperTemplates))]})
 			default:
 				sc.Actions = append(sc.Actions, Action{At: at, Do: "ext_put", Key: "g", Str: tamperCorpus[r.Intn(len(tamperCorpus))]})
 			}
 		}
-		if r.chance(0.4) {
-			sc.Actions = append(sc.Actions, Action{At: r.between(0, span), Do: r.pick2("validate", "validate_or_demote"), I: "n1"})
+		nv := int(r.between(0, 4))
+		for j := 0; j < nv; j++ {
+			sc.Actions = append(sc.Actions, Action{At: r.between(0, span), Do: r.pick2("validate", "validate_or_demote"),
+				I: sc.Instances[r.Intn(len(sc.Instances))].ID, CtxNs: r.pick(0, 0, 0, -1, h/8, 3*sec)})
 		}
 		sc.Grid = h / 2
 		out = append(out, sc)
@@ -378,8 +399,11 @@ func genG6(r rng, n int, t *testing.T) []*Scenario {
 }
 
 // opTimes extracts (issue, apply, ret) instants of the store calls of instance idx from a trace.
-func opTimes(trace []byte, idx int) [][3]int64 {
-	type rec struct{ is, ap, rt int64 }
+func opTimes(trace []byte, idx int) ([][3]int64, [][]int) {
+	type rec struct {
+		is, ap, rt int64
+		cls        string
+	}
 	m := map[int64]*rec{}
 	var order []int64
 	for _, line := range strings.Split(string(trace), "\n") {
@@ -394,7 +418,7 @@ func opTimes(trace []byte, idx int) [][3]int64 {
 			fmt.Sscan(f[2], &a)
 			fmt.Sscan(f[3], &b)
 			if int(a) == idx {
-				m[b] = &rec{is: tt, ap: -1, rt: -1}
+				m[b] = &rec{is: tt, ap: -1, rt: -1, cls: f[4] + "/" + f[5]}
 				order = append(order, b)
 			}
 		case "apply":
@@ -410,10 +434,20 @@ func opTimes(trace []byte, idx int) [][3]int64 {
 		}
 	}
 	var out [][3]int64
-	for _, o := range order {
+	byCls := map[string][]int{}
+	var clsOrder []string
+	for k, o := range order {
 		out = append(out, [3]int64{m[o].is, m[o].ap, m[o].rt})
+		if _, ok := byCls[m[o].cls]; !ok {
+			clsOrder = append(clsOrder, m[o].cls)
+		}
+		byCls[m[o].cls] = append(byCls[m[o].cls], k)
 	}
-	return out
+	var classes [][]int
+	for _, c := range clsOrder {
+		classes = append(classes, byCls[c])
+	}
+	return out, classes
 }
 
 // G7: stop points: for a store call of the stopping instance, stop immediately before it,
@@ -457,13 +491,15 @@ func genG7(r rng, n int, t *testing.T) []*Scenario {
 		sc.Grid = h / 2
 		baseTrace, _ := Run(t, sc)
 		victim := int(r.between(1, int64(ninst)))
-		ops := opTimes(baseTrace, victim)
+		ops, classes := opTimes(baseTrace, victim)
 		if len(ops) == 0 {
 			continue
 		}
 		// derive several stop points from this base
 		for d := 0; d < 6 && len(out) < n; d++ {
-			op := ops[r.Intn(len(ops))]
+			// pick a class of calls first (acquisition Create, refresh, reads, ...), then a call of it
+			cls := classes[r.Intn(len(classes))]
+			op := ops[cls[r.Intn(len(cls))]]
 			if op[1] < 0 || op[2] < 0 {
 				continue
 			}
